@@ -32,10 +32,13 @@ func plusOneKey(name string) string {
 	return ""
 }
 
-func c05Check(cc *run.Case, ns namedStrat, class string, n int) bool {
+func c05Check(cc *run.Case, ns namedStrat, class string, n int, inst strategy.Strategy) bool {
 	snaps := reg.Snaps(gen.Bars(cc.R, class, n))
-	cc.Desc(map[string]any{"strategy": ns.Name, "class": class, "n": n, "w_s": ns.Warm})
-	acts := runStrat(ns.New(), snaps)
+	cc.Desc(map[string]any{"strategy": ns.Name, "class": class, "n": n, "w_s": ns.Warm, "reused_instance": inst != nil})
+	if inst == nil {
+		inst = ns.New()
+	}
+	acts := runStrat(inst, snaps)
 	cc.Count("runs", 1)
 	detail := map[string]any{"strategy": ns.Name, "class": class, "n": n, "w_s": ns.Warm, "quiet_prefix": ns.Quiet, "actions": fmt.Sprint(acts)}
 	for i, a := range acts {
@@ -88,6 +91,19 @@ func c05(ctx *run.Ctx) {
 	for _, row := range reg.SortedStrats() {
 		ctx.Count("cmp:"+row.Name, 0)
 	}
+	// A DEMA strategy whose first DEMA is the slower one (legal, unusual): the
+	// count must still be n; the guaranteed-Hold prefix is the smaller warm-up.
+	if row := reg.StratByName("trend.DemaStrategy"); row != nil {
+		for i := 0; i < ctx.Pick(3, 10); i++ {
+			c := row.Rand(gen.New(ctx.Seed, fmt.Sprintf("c05-dema-swapped/%d", i)))
+			if len(c.I) != 4 {
+				continue
+			}
+			c.I[0], c.I[1], c.I[2], c.I[3] = c.I[2], c.I[3], c.I[0], c.I[1]
+			all = append(all, namedStrat{Name: fmt.Sprintf("trend.DemaStrategy swapped=%v", c), New: func() strategy.Strategy { return row.New(c) },
+				Warm: max(c.I[0]+c.I[1]-2, c.I[2]+c.I[3]-2), Quiet: min(c.I[0]+c.I[1]-2, c.I[2]+c.I[3]-2)})
+		}
+	}
 	for si, ns := range all {
 		ns := ns
 		ctx.Case(fmt.Sprintf("strat/%d/all-short-lengths", si), func(cc *run.Case) {
@@ -98,13 +114,15 @@ func c05(ctx *run.Ctx) {
 				step = 1 + top/120
 			}
 			for n := 0; n <= top; n += step {
-				if !c05Check(cc, ns, gen.Walk, n) {
+				if !c05Check(cc, ns, gen.Walk, n, nil) {
 					return
 				}
 			}
+			// one instance serves all of the following series, as in a backtest over several assets
+			shared := ns.New()
 			for _, n := range []int{ns.Warm, ns.Warm + 1, 97, 251} {
-				for _, class := range []string{gen.Walk, gen.Ties, gen.Degen} {
-					if !c05Check(cc, ns, class, n) {
+				for _, class := range []string{gen.Walk, gen.Down, gen.Ties, gen.Degen} {
+					if !c05Check(cc, ns, class, n, shared) {
 						return
 					}
 				}
